@@ -124,6 +124,8 @@ def run(res):
     # the property itself on the implementation's answers (u128 reference in the harness)
     mon_node = [c for c in node if c["monitor_violation"]]
     mon_val = [c for c in val if c["monitor_violation"]]
+    # a spend that went through first, a wrong report after
+    mon_node.sort(key=lambda c: 0 if any("without asking" in m or "accepted although" in m for m in c["monitor_violation"]) else 1)
     mon_hand = [c for c in hand if c["monitor_violation"]]
     # a hidden loss first, a merely unverifiable claim after
     mon_hand.sort(key=lambda c: 0 if any("signed away" in m or "above the fee" in m for m in c["monitor_violation"]) else 1)
@@ -249,7 +251,11 @@ def run(res):
                 "p2wpkh/p2sh/p2tr, other key, p2pkh, allowlisted script with and without path, xpub child "
                 "p2wpkh/p2pkh/p2tr with and without path, two-step and hardened paths, unknown), 0-4 inputs (p2wpkh, "
                 "p2sh-p2wpkh, p2pkh, p2tr, unilateral-close p2wpkh/p2wsh with stack, foreign scripts), 1-3 requests per "
-                "node at times 0 / interval-1 / interval / (nb-1)*interval apart with a restart in between; input values "
+                "node at times 0 / interval-1 / interval / (nb-1)*interval apart with a restart in between and, half of "
+                "the time, 1-2 operations on the allowlist through Node::set_allowlist (empty list, subsets plus new "
+                "entries, the same list), remove_allowlist (an entry the spend pays to, all entries) and add_allowlist "
+                "(addresses and xpubs) - the allowlist answers of model and monitor follow the harness's own record of the "
+                "operator's list (replace = exactly the given list), never the node; input values "
                 "chosen so that the non-beneficial value sits at 0, 1, bound-1, bound, bound+1 of the rate bound for the "
                 "weight, at limit-1/limit/limit+1 of the fee velocity, at the u32 truncation class, at 2^64/1000 (+1), "
                 "at -1 (underflow) or sums past 2^64; 3/5 of the cases mostly valid, 1/8 malformed (flag / opath / "
